@@ -1,5 +1,7 @@
 pub mod vc_diff;
 pub mod vc_rules;
+pub mod vc_escape;
+pub mod vc_expect;
 
 use crate::core::*;
 
@@ -19,4 +21,6 @@ macro_rules! engines {
 engines! {
     vc_diff::VcDiff => ["C01", "C02", "C03"],
     vc_rules::VcRules => ["C04"],
+    vc_escape::VcEscape => ["C11"],
+    vc_expect::VcExpect => ["C08"],
 }
